@@ -349,6 +349,9 @@ class C02(core.PropertyCheck):
                 cfg["substitutions"] = {"sub": rng.choice(SUBST_BODIES)}
                 if rng.random() < 0.5:
                     cfg["substitutions"]["sub2"] = rng.choice(SUBST_BODIES)
+            if rng.random() < 0.08:
+                # a project without a start page (neither index.txt nor contents.txt): the toctree is empty
+                files["home.txt"] = files.pop("index.txt")
             if rng.random() < 0.12:
                 # the shape of a page generated from YAML: stored under includes/steps/run.rst, its Root names the YAML file;
                 # its content may include itself / be included from the pages
